@@ -936,7 +936,9 @@ func (x *Exec) guardAccess(st *State, structT types.Type, field string, ptr *Ter
 		}
 	}
 	if write && x.isImmutableKey(sn+"."+field) {
-		x.oblige(st, "safety", fmt.Sprintf("safety.immutable-write(%s.%s)", sn, field), x.b.False(), token.NoPos, nil)
+		// a field declared immutable may be initialised by the function that allocated the object
+		// (refs at or above the allocation counter on entry)
+		x.oblige(st, "safety", fmt.Sprintf("safety.immutable-write(%s.%s)", sn, field), x.b.Le(x.b.Var("alloc0", IntSort), ptr, true), token.NoPos, nil)
 	}
 	if write {
 		for _, g := range cf.OnWrite {
